@@ -56,6 +56,32 @@ class World:
     return self.pg.DNA(self.dnas[i % len(self.dnas)].to_numbers()).use_spec(self.spec)
 
 
+_WORLDS = {}
+
+
+def world_of(dims):
+  """Worlds are immutable: one per space and process."""
+  key = tuple(dims)
+  if key not in _WORLDS:
+    _WORLDS[key] = World(dims)
+  return _WORLDS[key]
+
+
+_STREAMS = {}
+
+
+def stream_of(world, seed, n):
+  """First n DNAs (as indices) a fresh random.Random(seed) draws on this space; cached, extended on demand."""
+  import random
+  key = (tuple(world.dims), seed)
+  if key not in _STREAMS:
+    _STREAMS[key] = (random.Random(seed), [])
+  r, xs = _STREAMS[key]
+  while len(xs) < n:
+    xs.append(world.idx(world.pg.random_dna(world.spec, r)))
+  return xs[:n]
+
+
 def fitness_of(dna):
   return dna.metadata.get('reward')
 
@@ -317,8 +343,7 @@ def streams(world, cfg, n):
     if k == 'random':
       key = str(c['seed'])
       if key not in out:
-        r = random.Random(c['seed'])
-        out[key] = [world.idx(world.pg.random_dna(world.spec, r)) for _ in range(n)]
+        out[key] = stream_of(world, c['seed'], n)
     elif k == 'dedup':
       visit(c['inner'])
     elif k == 'evo':
@@ -567,7 +592,7 @@ class C15(Prop):
   DIMS = [[3], [4], [5], [7], [2, 2], [3, 2], [2, 3], [2, 2, 2], [4, 3], [3, 3], [5, 4], [6, 4]]
 
   def generate(self, rng, tier):
-    n_cases = 100 if tier == 'quick' else 2000
+    n_cases = 100 if tier == 'quick' else 1000
     for _ in range(n_cases):
       dims = rng.choice(self.DIMS)
       size = 1
@@ -590,7 +615,7 @@ class C15(Prop):
     cfg = case['algo']
     if has_real(cfg):
       return None            # real reproduction operators: oracle only
-    world = World(case['dims'])
+    world = world_of(case['dims'])
     m = case.get('m', 3)
     n = sum(1 for e in case['events'] if e[0] == 'p') + m
     n = min(4000, n * attempts_bound(cfg) + 4)
@@ -598,7 +623,7 @@ class C15(Prop):
             'events': case['events'], 'm': m}
 
   def impl(self, case):
-    world = World(case['dims'])
+    world = world_of(case['dims'])
     cfg = case['algo']
     ks, log = crash_points(world, cfg, case['events'], case.get('m', 3))
     return {'model': {'ks': ks}, 'log': log, 'n': len(world.dnas)}
